@@ -3,8 +3,10 @@ package main
 import (
 	"context"
 	"fmt"
+	"strconv"
 	"strings"
 	"sync"
+	"sync/atomic"
 	"time"
 
 	tpl "code.gopub.tech/tpl"
@@ -213,7 +215,14 @@ func raceC18(seed uint64, rounds int) string {
 		if rd == nil {
 			continue
 		}
-		_ = err // a renderer whose first build failed is kept: the first successful Reload then races the requests
+		// a renderer whose first build failed is kept: the first successful Reload then races the requests
+		// lastDone: the newest build whose Reload (or constructor) has RETURNED successfully; builds are numbered by
+		// the builder's call count, so with the single reloading goroutine the numbers grow with real time.
+		var lastDone atomic.Int64
+		if err == nil {
+			lastDone.Store(1)
+		}
+		callCount := func() int64 { mu.Lock(); defer mu.Unlock(); return int64(calls) }
 		var wg sync.WaitGroup
 		n := 4 + r.Intn(12)
 		bad := make([]string, n)
@@ -224,23 +233,42 @@ func raceC18(seed uint64, rounds int) string {
 				ctx := context.Background()
 				for k := 0; k < 20; k++ {
 					if g == 0 {
-						rd.Reload(ctx)
+						before := callCount()
+						if rd.Reload(ctx) == nil && !hot {
+							lastDone.Store(before + 1) // without hot reload this goroutine is the only caller of the builder
+						}
 						continue
 					}
 					if k%4 == 3 {
 						rd.GetTemplate(ctx, "t")
 					}
+					lo, cb := lastDone.Load(), callCount()
 					w := &respWriter{h: map[string][]string{}}
 					e := rd.Instance(ctx, "t", nil).Render(w)
 					out := w.sb.String()
+					ca := callCount()
 					if e != nil {
 						if out != "" {
 							bad[g] = "output written although the request failed"
+						}
+						if !hot && lo > 0 {
+							bad[g] = fmt.Sprintf("request failed (%v) although build %d had been published before it started", e, lo)
 						}
 						continue
 					}
 					if !strings.HasPrefix(out, "<p>v") || !strings.HasSuffix(out, "</p>") {
 						bad[g] = "torn output " + out
+						continue
+					}
+					v, _ := strconv.ParseInt(out[4:len(out)-4], 10, 64)
+					// linearizability (Proofs/ReloadConcProps.v): a request is served from a build that is at least as new
+					// as every Reload that returned before the request started, and that was started before it ended;
+					// with hot reload from a build made during the request
+					if !hot && (v < lo || v > ca) {
+						bad[g] = fmt.Sprintf("served from build %d; build %d was published before the request started, %d builds had been started when it ended", v, lo, ca)
+					}
+					if hot && (v <= cb || v > ca) {
+						bad[g] = fmt.Sprintf("hot reload: served from build %d, not from a build made during the request (calls %d..%d)", v, cb+1, ca)
 					}
 				}
 			}(g)
